@@ -111,6 +111,11 @@ package jlib
 //@   props C15 C09
 //@   requires ifaceable(v)
 //@   ensures r1 == nil
+//@   ensures [C15:as-many-members-as-the-argument] kind(rvof(r0)) == 23 && rvlen(rvof(r0)) == rvlen(ret("arrayify#0", 0))
+//@   loop 0 calls [C15:every-member-taken] reflect.Append#0
+//@   atcall[C15:last-member-first] reflect.Append#0 requires callee_arg0 == results && len(callee_arg1) == 1 && callee_arg1[0] == at(v, i) && rvlen(results) == length - 1 - i
+//@   atcall[C15:non-array-counts-as-one-member] arrayify#0 requires callee_v == v
+//@   loop 0 decreases i + 1
 //@   loop 0 invariant -1 <= i && i < length && length == rvlen(v) && arrKind(kind(v)) && canif(v) && kind(results) == 23 && canif(results) && rvlen(results) == length - 1 - i
 //@ func arrayLen
 //@   props C15 C09
@@ -145,6 +150,10 @@ package jlib
 //@ func Distinct
 //@   props C15 C09
 //@   requires ifaceable(v)
+//@   atcall[C15:a-kept-member-is-the-member-itself-in-order-of-first-occurrence] reflect.Append#0 requires callee_arg0 == distinctValues && len(callee_arg1) == 1 && callee_arg1[0] == res(at(items, i))
+//@   atcall[C15:a-kept-member-is-the-member-itself-in-order-of-first-occurrence] reflect.Append#1 requires callee_arg0 == distinctValues && len(callee_arg1) == 1 && callee_arg1[0] == res(at(items, i))
+//@   atcall[C15:a-kept-member-is-the-member-itself-in-order-of-first-occurrence] reflect.Append#2 requires callee_arg0 == distinctValues && len(callee_arg1) == 1 && callee_arg1[0] == res(at(items, i))
+//@   atcall[C15:non-array-counts-as-one-member] arrayify#0 requires callee_v == res(v)
 //@   loop 0 invariant 0 <= i && arrKind(kind(items)) && canif(items) && visited != nil && kind(distinctValues) == 23 && canif(distinctValues)
 
 // $map / $filter / $reduce / $single: the function is called on the members in order with (value, index, whole
@@ -267,6 +276,10 @@ package jlib
 //@   props C17 C09
 //@   requires f != nil
 //@   ensures r1 != nil ==> len(r0) == 0
+//@   ensures [C17:replacement-function-error-propagates] ret("iface:Call#0", 1) != nil ==> r1 == ret("iface:Call#0", 1)
+//@   ensures [C17:replacement-must-be-a-string] (ret("iface:Call#0", 1) == nil && kind(res(ret("iface:Call#0", 0))) != 24) ==> r1 != nil
+//@   ensures [C17:replacement-is-what-the-function-returned] (ret("iface:Call#0", 1) == nil && kind(res(ret("iface:Call#0", 0))) == 24) ==> (r1 == nil && same(r0, sval(res(ret("iface:Call#0", 0)))))
+//@   atcall[C17:called-with-the-match-object] iface:Call#0 requires callee_recv == f && len(callee_arg1) == 1 && kind(callee_arg1[0]) == 21
 //@   assigns heap
 //@ func replaceMatchFunc
 //@   props C17 C09
